@@ -86,6 +86,15 @@ Theorem C19_lists_visible_args : forall (m : mman) (d : roff) (a : marg),
 Proof. exact visible_arg_named. Qed.
 Print Assumptions C19_lists_visible_args.
 
+(* Every visible option / positional has its entry in the OPTIONS part (under .SH OPTIONS or under
+   its help heading) with its name in the entry's header line, and that part is on the page. *)
+Theorem C19_lists_visible_options : forall (m : mman) (d : roff) (a : marg),
+  man_doc m = Ok d -> In a (c_args (m_cmd m)) -> a_hide a = false ->
+  exists os inl, render_options_section m = Ok os /\ (forall l, In l os -> In l d)
+                 /\ In (Text inl) os /\ In (header_name a) inl.
+Proof. exact visible_arg_entry. Qed.
+Print Assumptions C19_lists_visible_options.
+
 (* Every visible subcommand is named on the page as name-sub(section). *)
 Theorem C19_lists_visible_subs : forall (m : mman) (d : roff) (s : msub),
   man_doc m = Ok d -> In s (c_subs (m_cmd m)) -> s_hide s = false ->
